@@ -371,3 +371,79 @@ def rule_run_fatal(ctx, R):
 def runner_stable(fn):
     import runner
     return runner.stable_fn(fn) if hasattr(runner, "stable_fn") else fn
+
+
+# ---- R-DEADLINE-BOUND -------------------------------------------------------------------------
+TIME_ADD = re.compile(r"^std::time::Instant::checked_add$|^<std::time::Instant as std::ops::Add<std::time::Duration>>::add$")
+MINLIKE = re.compile(r"(^std::cmp::min::<|as std::cmp::Ord>::(min|clamp)$)")
+
+
+def _const_rooted(b, o, depth=0):
+    """operand is a constant or a copy of one (named consts are promoted or evaluated)"""
+    if op_is_const(o):
+        return True
+    if depth > 6:
+        return False
+    import prov
+    ds = prov.build_defs(b).get(op_place(o)["l"], ())
+    return bool(ds) and all(kind == "stmt" and x["r"]["k"] in ("use", "ref") and not x["l"]["p"] and
+                            (_const_rooted(b, x["r"]["o"], depth + 1) if x["r"]["k"] == "use" else False) for kind, _, x in ds)
+
+
+def const_bounded(b, o, depth=0):
+    """the value has a constant upper bound on every definition: min/clamp against a constant,
+    a narrow unsigned source, or a Duration built from such a number"""
+    if op_is_const(o):
+        return True
+    if depth > 8:
+        return False
+    import prov
+    pl = op_place(o)
+    ds = prov.build_defs(b).get(pl["l"], ())
+    if not ds:
+        return False
+    for kind, bbi, x in ds:
+        if kind == "call":
+            f = x["f"] or ""
+            if MINLIKE.search(f) and len(x["a"]) >= 2 and any(_const_rooted(b, a) for a in x["a"][1:] + x["a"][:1] if a is not x["a"][0]) :
+                continue
+            if MINLIKE.search(f) and len(x["a"]) >= 2 and _const_rooted(b, x["a"][0]):
+                continue
+            if re.search(r"^std::time::Duration::(from_secs|from_millis|from_micros|from_nanos)$", f) and const_bounded(b, x["a"][0], depth + 1):
+                continue
+            if re.search(r"Deref>::deref$|::clone$|Option::<.*>::(unwrap|expect)$", f) and x["a"] and const_bounded(b, x["a"][0], depth + 1):
+                continue
+            return False
+        else:
+            r = x["r"]
+            if x["l"]["p"]:
+                return False
+            if r["k"] == "use" and const_bounded(b, r["o"], depth + 1):
+                continue
+            if r["k"] == "cast" and (re.match(r"^u(8|16|32)$", r.get("from", "")) or const_bounded(b, r["o"], depth + 1)):
+                continue
+            return False
+    return True
+
+
+def rule_deadline_bound(ctx, R):
+    """the stored-deadline invariant the TTL consumers rely on (the dump writers add the remaining
+    TTL to the wall clock without a check; TTL/PTTL convert it): a key's deadline is at most a
+    constant away from `now`.  Every `Instant + Duration` / `Instant::checked_add` in the modules
+    that own deadlines (storage::value, storage::engine) bounds the Duration by a constant first."""
+    n = 0
+    for fn, b in sorted(ctx.prog.bodies.items()):
+        if not fn.startswith(("storage::value::", "storage::engine::")) or "::tests::" in fn:
+            continue
+        k = 0
+        for i, t in b.calls():
+            if not TIME_ADD.match(t["f"] or "") or len(t["a"]) < 2:
+                continue
+            n += 1
+            ok = const_bounded(b, t["a"][1])
+            R.inst(fn, "instant-plus-duration#%d" % k, {"function": fn, "at": b.loc(i), "duration_bounded_by_constant": ok})
+            if not ok:
+                R.finding(fn, "instant-plus-duration#%d:unbounded" % k,
+                          "%s computes a deadline (line %d) from a Duration that is not bounded by a constant: a client TTL near u64::MAX ms then survives into the stored deadline, and the dump writers' unchecked `now + remaining TTL` (SAVE, BGSAVE, SYNC) panic" % (fn.split("::")[-1], b.bb_line(i)), b.loc(i))
+            k += 1
+    R.floor("deadline_additions", n)
